@@ -593,7 +593,9 @@ func formatNode(builder *OutputBuilder, rootExpr pgsql.SyntaxNode) error {
 					exprStack = append(exprStack, parameterLiteral)
 				}
 			} else {
-				if typedNextExpr.CastType != pgsql.UnsetDataType {
+				// A parameter whose value is nil has the data type "null", which is not a type name
+				// PostgreSQL knows: `@p::null` is a syntax error. An untyped NULL needs no cast.
+				if typedNextExpr.CastType != pgsql.UnsetDataType && typedNextExpr.CastType != pgsql.Null {
 					exprStack = append(exprStack, typedNextExpr.CastType, pgsql.FormattingLiteral("::"))
 				}
 
